@@ -54,6 +54,76 @@ def replace_chain(model: Model, f: FuncInfo) -> list[tuple[ast.Call, object, obj
     return out
 
 
+def _single_pass_escape(model: Model, f, res: RuleResult) -> bool:
+    """The other form of the escaper: `return P.sub(callback, s)` with a regex that selects the
+    characters to escape. Decided on the regex AST: the choice of a character must not depend on
+    its neighbours (no look-around, no anchor: the doubling of the backslashes has already run,
+    so a quotation mark after a backslash is as much a quotation mark as any other), and the
+    characters the pattern can match cover the quotation mark and U+0001-U+001F."""
+    import re._parser as sre_parse      # noqa
+    import re._constants as sre_c       # noqa
+    subs = [c for c in walk_local(f.node) if isinstance(c, ast.Call)
+            and isinstance(c.func, ast.Attribute) and c.func.attr == 'sub' and len(c.args) == 2]
+    if len(subs) != 1:
+        return False
+    recv = subs[0].func.value
+    pat: Optional[str] = None
+    if isinstance(recv, ast.Attribute):
+        for cls in model.all_classes():
+            if cls.name == dotted(recv.value).split('.')[-1] and recv.attr in cls.attrs:
+                v = cls.attrs[recv.attr]
+                if isinstance(v, ast.Call) and v.args and isinstance(v.args[0], ast.Constant) \
+                        and isinstance(v.args[0].value, str):
+                    pat = v.args[0].value
+    elif isinstance(recv, ast.Name):
+        v = f.module.consts.get(recv.id) if hasattr(f.module, 'consts') else None
+        if isinstance(v, ast.Call) and v.args and isinstance(v.args[0], ast.Constant):
+            pat = v.args[0].value
+    if pat is None:
+        return False
+    tree = sre_parse.parse(pat)
+    context_dependent: list[str] = []
+    chars: set[int] = set()
+
+    def visit(items) -> None:
+        for op, av in items:
+            if op in (sre_c.ASSERT, sre_c.ASSERT_NOT, sre_c.AT):
+                context_dependent.append(str(op))
+            elif op is sre_c.LITERAL:
+                chars.add(av)
+            elif op is sre_c.IN:
+                for o2, a2 in av:
+                    if o2 is sre_c.LITERAL:
+                        chars.add(a2)
+                    elif o2 is sre_c.RANGE:
+                        chars.update(range(a2[0], a2[1] + 1))
+            elif op is sre_c.BRANCH:
+                for br in av[1]:
+                    visit(br)
+            elif op is sre_c.SUBPATTERN:
+                visit(av[3])
+    visit(tree)
+    res.instances.append(f'single-pass form: pattern {pat!r}; context-dependent constructs: '
+                         f'{context_dependent or None}; characters selected: {len(chars)}')
+    need = {ord(c) for c in MUST_ESCAPE if c != '\\'}
+    missing = sorted(need - chars)
+    if context_dependent:
+        res.fail(finding('R17.2', f, subs[0], 'escape pattern with look-around',
+                         f'the pattern {pat!r} that selects the characters to escape uses '
+                         f'{context_dependent[0]}: whether a character is escaped depends on its '
+                         f'neighbour, but RFC 8259 forbids it raw wherever it stands (a quotation '
+                         f'mark after a doubled backslash is written raw: "\\\\"" is not JSON)'))
+    else:
+        res.ok()
+    if missing:
+        res.fail(finding('R17.2', f, subs[0], f'uncovered U+{missing[0]:04X}',
+                         f'the pattern {pat!r} does not select U+{missing[0]:04X}, which RFC 8259 '
+                         f'forbids raw in a string'))
+    else:
+        res.ok()
+    return True
+
+
 def r17_2(ctx, counts) -> RuleResult:
     model: Model = ctx.model
     res = RuleResult(
@@ -69,6 +139,10 @@ def r17_2(ctx, counts) -> RuleResult:
         raise AnalysisError('helpers.escape_json_string vanished')
     chain = replace_chain(model, f)
     if len(chain) < 4:
+        single = _single_pass_escape(model, f, res)
+        if single:
+            counts['escape_pairs'] = len(chain)
+            return res
         raise AnalysisError(f'escape_json_string: replace chain not recognised ({len(chain)})')
     covered: set[str] = set()
     doubled_at: Optional[int] = None
